@@ -63,6 +63,19 @@ def rememberPid (raw : Bytes) : Option Bytes :=
   let i := raw.length - 33
   if raw[i]? == some 59 then some (raw.take i) else none
 
+/-- `RememberingServerStorer.UseRememberToken`: `some true` = found and consumed,
+`some false` = `ErrTokenNotFound`, `none` = other error. -/
+def useToken (pid raw : Bytes) : H (Option Bool) := do
+  match ← backend with
+  | some .tokenNotFound => pure (some false)
+  | some _ => pure none
+  | none =>
+    let c ← get
+    if c.store.tokens.contains (pid, raw) then
+      modify fun c => { c with store := { c.store with tokens := c.store.tokens.erase (pid, raw) } }
+      pure (some true)
+    else pure (some false)
+
 def rememberAuthenticate : H PUnit := do
   let c ← get
   match c.rm with
@@ -76,18 +89,7 @@ def rememberAuthenticate : H PUnit := do
       delRm
       logf "failed to decode remember me token, deleting cookie"
     | some pid =>
-      -- UseRememberToken
-      let used ← (do
-        match ← backend with
-        | some .tokenNotFound => pure (some false)
-        | some _ => pure none
-        | none =>
-          let c ← get
-          if c.store.tokens.contains (pid, raw) then
-            modify fun c => { c with store := { c.store with tokens := c.store.tokens.erase (pid, raw) } }
-            pure (some true)
-          else pure (some false))
-      match used with
+      match ← useToken pid raw with
       | none => fail "use-token"
       | some false =>
         logf "remember me cookie had a token that was not in storage, deleting cookie"
@@ -290,9 +292,14 @@ inductive Op
   | seedUser (u : User)          -- harness shortcut: start from a reachable account state
 deriving Repr
 
+/-- The request context a request of browser `b` starts with (`LoadClientState`). -/
+def initCtx (cfg : Config) (s : State) (b : Bytes) (req : Req) (fault : Option Fault) : Ctx :=
+  { cfg := cfg, now := s.now, req := req, store := s.store, sess := (s.browser b).sess, rm := (s.browser b).rm,
+    fault := fault }
+
 def stepHttp (cfg : Config) (s : State) (b : Bytes) (rt : Route) (req : Req) (fault : Option Fault) : State × Outcome :=
   let br := s.browser b
-  let c0 : Ctx := { cfg := cfg, now := s.now, req := req, store := s.store, sess := br.sess, rm := br.rm, fault := fault }
+  let c0 : Ctx := initCtx cfg s b req fault
   let (res, c) := serve rt c0
   let stp := match res with | .ok _ => none | .stop st => some st
   -- an error reaching the ErrorHandler: silent default writes nothing, the 500 handler writes a 500
